@@ -1,5 +1,5 @@
 (* C18 -- property theorems only.  Proofs live in C18/Proofs*.v. *)
-From Coq Require Import NArith List.
+From Coq Require Import NArith List Bool.
 Import ListNotations.
 From DV Require Import Base.Outcome C18.Gen C18.Model C18.Proofs C18.ProofsEnc C18.ProofsSpec
   C18.ProofsDec64 C18.ProofsDec32 C18.ProofsApi C18.ProofsApi2 C18.ProofsConv C18.ProofsPostFix
@@ -311,3 +311,41 @@ Theorem C18_nsec3_scan_limit_as_coded :
    else exists token bs, hash_scan token = Ok bs /\ length bs = 260%nat).
 Proof. exact (scan_limit_sel iter_scanner_checks_escapes nsec3_salt_scan_limited nsec3_hash_scan_limited). Qed.
 Print Assumptions C18_nsec3_scan_limit_as_coded.
+
+(* the repaired variants are the ones in /repo (T1): reverting a fix breaks this *)
+Theorem C18_fixes_present :
+  b64_push_sticky = true /\ iter_scanner_checks_escapes = true /\ nsec3_salt_scan_limited = true /\
+  nsec3_hash_from_str_limited = true /\ nsec3_hash_scan_limited = true.
+Proof. exact (conj eq_refl (conj eq_refl (conj eq_refl (conj eq_refl eq_refl)))). Qed.
+Print Assumptions C18_fixes_present.
+
+Theorem C18_symbols_ok_iff_wf_escapes : forall s, snd (symbols s) = true <-> wf_esc s.
+Proof. exact symbols_ok_iff_wf. Qed.
+Print Assumptions C18_symbols_ok_iff_wf_escapes.
+
+Theorem C18_into_char_spec : forall y,
+  into_char y = match y with
+                | SChar c => Some c
+                | SSimple c => if (32 <=? c) && (c <? 127) then Some c else None
+                | SDecimal _ => None
+                end.
+Proof. exact into_char_spec. Qed.
+Print Assumptions C18_into_char_spec.
+
+(* decode into a builder of capacity c: the unbounded result if it fits,
+   ShortBuf if the text is well-formed but too long, an error otherwise *)
+Theorem C18_decode_cap_spec : forall c s,
+  cap_decode_stmt b64_decode b64_decode_cap c s /\ cap_decode_stmt b32_decode b32_decode_cap c s /\
+  cap_decode_stmt b16_decode b16_decode_cap c s.
+Proof.
+  exact (fun c s => conj (b64_decode_cap_spec c s) (conj (b32_decode_cap_spec c s) (b16_decode_cap_spec c s))).
+Qed.
+Print Assumptions C18_decode_cap_spec.
+
+(* textual T1 anchors that carry no value: the wrappers are calls of display,
+   decode is push-with-? then finalize, ShortBuf is handled as modelled *)
+Theorem C18_t1_shape_anchors :
+  encode_wrappers_are_display = true /\ shortbuf_paths_as_modelled = true /\
+  decode_is_push_try_finalize = true.
+Proof. exact (conj eq_refl (conj eq_refl eq_refl)). Qed.
+Print Assumptions C18_t1_shape_anchors.
